@@ -154,3 +154,35 @@ def run(repo: Repo, rep: Report, tier: str) -> None:
     gcs = repo.func("ConnectionPlanner._get_connection_side")
     rts = {norm(n.value) for n in walk_local(gcs.node) if isinstance(n, ast.Return) and n.value is not None}
     rep.check({"'output'", "'input'"} <= rts or {"'output' if is_source else 'input'"} <= rts, "C08-R4", "dual-connector entities get input/output sides", str(sorted(rts)), gcs.loc())
+
+    # ---------------- R5 ---------------------------------------------------------------
+    rep.rule("C08-R5", "axis agreement in occupancy/centre arithmetic of the layout modules: an expression `<pos>[i] +/- <footprint>[j] / 2` must have i == j "
+             "(a crossed axis marks a non-square entity's tiles in the wrong place, so relays or poles can be put on top of it)")
+    n_ax = 0
+    for f in repo.all_funcs():
+        if ".layout." not in f.module.name + ".":
+            continue
+        for n in walk_local(f.node):
+            if isinstance(n, ast.BinOp) and isinstance(n.op, (ast.Add, ast.Sub)) and isinstance(n.left, ast.Subscript) and isinstance(n.left.slice, ast.Constant) and isinstance(n.left.slice.value, int):
+                idx = [x.slice.value for x in ast.walk(n.right) if isinstance(x, ast.Subscript) and isinstance(x.slice, ast.Constant) and isinstance(x.slice.value, int) and "footprint" in norm(x.value)]
+                if not idx:
+                    continue
+                n_ax += 1
+                rep.check(all(i == n.left.slice.value for i in idx), "C08-R5", f"{f.short}: `{norm(n)[:60]}` uses one axis", "axes agree" if all(i == n.left.slice.value for i in idx) else "x/y crossed", f.loc(n))
+    rep.floor("C08-R5", "axis-indexed footprint expressions", n_ax, 4)
+
+    # ---------------- R6 ---------------------------------------------------------------
+    rep.rule("C08-R6", "relay poles never join two circuit networks: network ids are distinct per (source, colour) and a relay is reused only for its own network (shared with C12-R1/R2)")
+    cni = repo.func("ConnectionPlanner._compute_network_ids")
+    cfg6 = CFG(cni.node)
+    news = [s for s in cfg6.stmts() if isinstance(s, ast.If) and isinstance(s.test, ast.Compare) and isinstance(s.test.ops[0], ast.NotIn)]
+    ok = False
+    if news:
+        assigns = [s for s in news[0].body if isinstance(s, ast.Assign) and isinstance(s.targets[0], ast.Subscript)]
+        incs = [s for s in news[0].body if isinstance(s, ast.AugAssign) and isinstance(s.op, ast.Add)]
+        ok = bool(assigns) and bool(incs) and norm(assigns[0].value) == norm(incs[0].target)
+    rep.check(ok, "C08-R6", "every (source, colour) network gets its own id", "counter advances with each new key" if ok else "ids are not distinct: relays would be shared between networks", cni.loc())
+    rn = repo.cls("RelayNode").methods["can_route_network"]
+    ret = [n for n in walk_local(rn.node) if isinstance(n, ast.Return)]
+    rep.check(bool(ret) and norm(ret[0].value) in ("len(networks) == 0 or network_id in networks", "not networks or network_id in networks"), "C08-R6",
+              "a relay carries a network only if the colour is free or already carries it", norm(ret[0].value) if ret else "", rn.loc())
